@@ -643,6 +643,19 @@ impl CodegenContext {
 
                             let mut opts = SegmentOptions::default();
                             let name = Identifier::new(extractor.get_string(self, "name")?);
+                            for key in ["start", "pc"] {
+                                if let Ok(Some(val)) = extractor.try_get_i64(self, key) {
+                                    if !(0..=0xffff).contains(&val) {
+                                        return Err(Diagnostic::error()
+                                            .with_message(format!(
+                                                "segment '{}': '{}' must be between $0000 and $FFFF, but is {}",
+                                                name, key, val
+                                            ))
+                                            .with_labels(vec![id.span.to_label()])
+                                            .into());
+                                    }
+                                }
+                            }
                             match extractor.try_get_i64(self, "start") {
                                 Ok(Some(val)) => {
                                     log::trace!(
@@ -891,12 +904,12 @@ impl CodegenContext {
                             let target_pc = value as i64;
                             // If the current PC cannot be determined we'll just default to the target_pc. This will be fixed up later
                             // when the instruction is re-emitted.
-                            let cur_pc = (self
+                            let cur_pc = self
                                 .try_current_target_pc()
-                                .unwrap_or_else(|| target_pc.into())
-                                + 2)
-                            .as_i64();
-                            let mut offset = target_pc - cur_pc;
+                                .map(|pc| pc.as_i64())
+                                .unwrap_or(target_pc)
+                                .wrapping_add(2);
+                            let mut offset = target_pc.wrapping_sub(cur_pc);
                             if (-128..=127).contains(&offset) {
                                 if offset < 0 {
                                     offset += 256;
@@ -1044,6 +1057,15 @@ impl CodegenContext {
             }
             Token::ProgramCounterDefinition { value, .. } => {
                 if let Some(pc) = self.evaluate_expression_as_i64(value, true)? {
+                    if !(0..=0xffff).contains(&pc) {
+                        return Err(Diagnostic::error()
+                            .with_message(format!(
+                                "program counter must be between $0000 and $FFFF, but is {}",
+                                pc
+                            ))
+                            .with_labels(vec![value.span.to_label()])
+                            .into());
+                    }
                     if let Some(seg) = self.try_current_segment_mut() {
                         seg.set_pc(pc);
                     }
